@@ -1272,7 +1272,7 @@ func controllingEdges(x *ssa.BasicBlock) []cfgEdge {
 
 // ruleHTTPStatus: R09.6 / R09.7.
 func ruleHTTPStatus(p *Prog, r *Report) {
-	r.rule("R09.6", "HTTP devices: every module function that performs a request ((*http.Client).Get/Do/PostForm) compares the StatusCode of the response with http.StatusOK and, on the mismatch edge, returns a non-nil error (so an HTTP error status stops the run).")
+	r.rule("R09.6", "HTTP devices: every module function that performs a request ((*http.Client).Get/Do/PostForm) compares the StatusCode of the response with http.StatusOK and every return reachable over the mismatch edge carries a non-nil error (so an HTTP error status stops the run, whatever the body looks like).")
 	r.rule("R09.7", "PAN-OS: parseResponse returns a non-nil error unless the status attribute of the reply equals \"success\"; every reply to a change command passes through it (doCmd), so a command the device rejects is an error.")
 	n := 0
 	for _, fn := range allModFuncs(p) {
@@ -1313,11 +1313,28 @@ func ruleHTTPStatus(p *Prog, r *Report) {
 			if neg {
 				badSucc = 1 - badSucc
 			}
-			// on the mismatch edge every return carries a non-nil error
+			// every return that can be reached over the mismatch edge carries a non-nil
+			// error (reachability, not dominance: `status != 200 && len(body) != 0`
+			// lets an error status with an empty body fall through to the success return)
 			good := true
 			found := false
+			reach := map[*ssa.BasicBlock]bool{}
+			var walk func(x *ssa.BasicBlock)
+			walk = func(x *ssa.BasicBlock) {
+				if reach[x] {
+					return
+				}
+				reach[x] = true
+				if blockAborts(x) {
+					return
+				}
+				for _, sx := range x.Succs {
+					walk(sx)
+				}
+			}
+			walk(b.Succs[badSucc])
 			for _, ret := range returnsOf(fn) {
-				if edgeDominates(b, badSucc, ret.Block()) {
+				if reach[ret.Block()] {
 					found = true
 					if !errProvablyNonNil(ret.Results[len(ret.Results)-1], ret.Block(), 0) {
 						good = false
